@@ -3,18 +3,18 @@
  "name": "p2_check_dot_converge",
  "props": ["C01"],
  "level": "U",
- "tier": "wip",
+ "tier": "quick",
  "harness": "h_dot_converge",
- "enforce": ["check_dot"],
  "includes": ["e2fsck", "lib/support"],
  "sources": ["lib/ext2fs/dir_iterate.c"],
  "unwind": 10,
  "unwind_reason": "check_dot is loop-free; the bound only serves strncmp(.., 3) and the ghost-log scan of the harness (8 slots)",
  "functions": ["e2fsck/pass2.c:check_dot"],
  "assumes": ["directory block of 1024 arbitrary bytes, fs->blocksize 1024 (rec_len is stored undecoded for every block size < 64 KiB)",
-	     "the entry satisfies exactly what check_dir_block has verified before the call (offset+rec_len within the block, rec_len >= 12, rec_len % 4 == 0, name fits in rec_len); offset arbitrary (the real call site passes offset 0)",
+	     "the entry satisfies exactly what check_dir_block has verified before the call (offset+rec_len within the block, rec_len >= 12, rec_len % 4 == 0, name fits in rec_len); the entry is at offset 0 of the block, as at the only call site (dot_state 0)",
 	     "fix_problem is a stub that logs the code and answers yes (the accepted-repair run), then whatever IN.choice says in the second run",
 	     "the directory inode number is not 0"],
+ "backend": "cadical",
  "native": false
 }
 */
@@ -23,7 +23,7 @@
  "name": "p2_check_dot_detect",
  "props": ["C02"],
  "level": "U",
- "tier": "wip",
+ "tier": "quick",
  "harness": "h_dot_detect",
  "enforce": ["check_dot"],
  "includes": ["e2fsck", "lib/support"],
@@ -35,6 +35,7 @@
 	     "fix_problem stub answers no to everything (e2fsck -n)",
 	     "PR_NO_OK pins of the problem table for the codes check_dot can raise: only PR_2_SPLIT_DOT carries PR_NO_OK",
 	     "the directory inode number is not 0"],
+ "backend": "cadical",
  "native": false
 }
 */
@@ -43,7 +44,7 @@
  "name": "p2_check_dot_sound",
  "props": ["C05"],
  "level": "U",
- "tier": "wip",
+ "tier": "quick",
  "harness": "h_dot_sound",
  "enforce": ["check_dot"],
  "includes": ["e2fsck", "lib/support"],
@@ -54,6 +55,7 @@
  "assumes": ["same block / call-site assumptions as p2_check_dot_converge",
 	     "healthy '.' = format-valid AND rec_len == 12 AND the byte after the name is NUL (what the kernel / mke2fs / libext2fs write); format-valid entries outside that set are the grey zone characterised by p2_check_dot_greyzone",
 	     "fix_problem answers are arbitrary (IN.choice)"],
+ "backend": "cadical",
  "native": false
 }
 */
@@ -62,7 +64,7 @@
  "name": "p2_check_dot_greyzone",
  "props": ["C05"],
  "level": "U",
- "tier": "wip",
+ "tier": "quick",
  "harness": "h_dot_grey",
  "enforce": ["check_dot"],
  "includes": ["e2fsck", "lib/support"],
@@ -72,6 +74,7 @@
  "functions": ["e2fsck/pass2.c:check_dot"],
  "assumes": ["same block / call-site assumptions as p2_check_dot_converge",
 	     "characterisation, not a format statement: names the two e2fsck conventions (NUL after '.', slack > 12 bytes split off) that go beyond the on-disk format"],
+ "backend": "cadical",
  "native": false
 }
 */
@@ -80,7 +83,7 @@
  "name": "p2_check_dot_inline",
  "props": ["C05"],
  "level": "U",
- "tier": "wip",
+ "tier": "quick",
  "harness": "h_dot_inline",
  "enforce": ["check_dot"],
  "includes": ["e2fsck", "lib/support"],
@@ -88,7 +91,9 @@
  "unwind": 10,
  "unwind_reason": "check_dot is loop-free; the bound only serves strncmp(.., 3) and the ghost-log scan of the harness (8 slots)",
  "functions": ["e2fsck/pass2.c:check_dot"],
- "assumes": ["the inline-data arm of check_dir_block: the entry is the synthetic on-stack '.' built there (inode = dir inode, rec_len 12, name_len 1 | filetype<<8, name \".\", rest zero); rebuilt here field by field from that code"],
+ "assumes": ["the inline-data arm of check_dir_block: the entry is the synthetic on-stack '.' built there (inode = dir inode, rec_len 12, name_len 1 | filetype<<8, name \".\", rest zero); rebuilt here field by field from that code",
+	     "the directory inode number is not 0"],
+ "backend": "cadical",
  "native": false
 }
 */
@@ -111,6 +116,10 @@ static int check_dot(e2fsck_t ctx, struct ext2_dir_entry *dirent, ext2_ino_t ino
 
 #include "p2_common.h"
 
+/* check_dot is only called in dot_state 0, i.e. before `offset` has been advanced: the entry is the first of the
+ * block (salvage_directory moves `offset` only when it has a previous entry, and there is none yet) */
+#define P2_DOT_OFF 0u
+
 /* C01: accept every repair; a second run finds nothing to do */
 void h_dot_converge(void)
 {
@@ -119,16 +128,16 @@ void h_dot_converge(void)
 	int r1, r2;
 
 	LOAD_IN();
-	p2_setup(&w, P2_YES);
+	p2_setup(&w, P2_YES, P2_DOT_OFF);
 	ASSUME(IN.ino != 0);
-	ASSUME(p2_callsite_ok(IN.blk, IN.off));
+	ASSUME(p2_callsite_ok(IN.blk, P2_DOT_OFF));
 
 	r1 = check_dot(w.ctx, w.dirent, IN.ino, &w.pctx);
 	if (r1) REACH("first run repaired something");
 	CHECK(r1 == (p2_nlog != 0), "answer yes: 'modified' is reported exactly when a problem was raised");
 	/* the repaired entry still satisfies the call-site facts of the next e2fsck run */
-	CHECK(p2_callsite_ok(w.buf, IN.off), "repaired '.' entry is still a well-delimited entry");
-	CHECK(P2F_DOT_FORMAT_OK(w.buf, IN.off, IN.ino), "after accepted repairs the entry is a format-valid '.'");
+	CHECK(p2_callsite_ok(w.buf, P2_DOT_OFF), "repaired '.' entry is still a well-delimited entry");
+	CHECK(P2F_DOT_FORMAT_OK(w.buf, P2_DOT_OFF, IN.ino), "after accepted repairs the entry is a format-valid '.'");
 
 	b1 = w.buf[IN.k];
 	p2_clear_log();
@@ -147,15 +156,15 @@ void h_dot_detect(void)
 	int r;
 
 	LOAD_IN();
-	p2_setup(&w, P2_NO);
+	p2_setup(&w, P2_NO, P2_DOT_OFF);
 	ASSUME(IN.ino != 0);
-	ASSUME(p2_callsite_ok(IN.blk, IN.off));
-	ASSUME(!P2F_DOT_FORMAT_OK(IN.blk, IN.off, IN.ino));
+	ASSUME(p2_callsite_ok(IN.blk, P2_DOT_OFF));
+	ASSUME(!P2F_DOT_FORMAT_OK(IN.blk, P2_DOT_OFF, IN.ino));
 
 	r = check_dot(w.ctx, w.dirent, IN.ino, &w.pctx);
 	CHECK(p2_nserious >= 1, "a malformed '.' raises at least one problem without PR_NO_OK");
 	CHECK(r == 0, "everything declined: reported as not modified");
-	CHECK(w.buf[IN.k] == IN.blk[IN.k], "everything declined: block unchanged");
+	CHECK(w.buf[IN.k] == w.b0, "everything declined: block unchanged");
 	REACH("end");
 }
 
@@ -166,14 +175,15 @@ void h_dot_sound(void)
 	int r;
 
 	LOAD_IN();
-	p2_setup(&w, P2_CHOICE);
-	ASSUME(p2_callsite_ok(IN.blk, IN.off));
-	ASSUME(P2F_DOT_HEALTHY(IN.blk, IN.off, IN.ino));
+	p2_setup(&w, P2_CHOICE, P2_DOT_OFF);
+	ASSUME(IN.ino != 0);
+	ASSUME(p2_callsite_ok(IN.blk, P2_DOT_OFF));
+	ASSUME(P2F_DOT_HEALTHY(IN.blk, P2_DOT_OFF, IN.ino));
 
 	r = check_dot(w.ctx, w.dirent, IN.ino, &w.pctx);
 	CHECK(p2_nlog == 0, "healthy '.': no problem raised");
 	CHECK(r == 0, "healthy '.': reported as not modified");
-	CHECK(w.buf[IN.k] == IN.blk[IN.k], "healthy '.': no byte of the block changes");
+	CHECK(w.buf[IN.k] == w.b0, "healthy '.': no byte of the block changes");
 	REACH("end");
 }
 
@@ -186,10 +196,10 @@ void h_dot_grey(void)
 	unsigned i;
 
 	LOAD_IN();
-	p2_setup(&w, P2_CHOICE);
+	p2_setup(&w, P2_CHOICE, P2_DOT_OFF);
 	ASSUME(IN.ino != 0);
-	ASSUME(p2_callsite_ok(IN.blk, IN.off));
-	ASSUME(P2F_DOT_FORMAT_OK(IN.blk, IN.off, IN.ino));
+	ASSUME(p2_callsite_ok(IN.blk, P2_DOT_OFF));
+	ASSUME(P2F_DOT_FORMAT_OK(IN.blk, P2_DOT_OFF, IN.ino));
 
 	r = check_dot(w.ctx, w.dirent, IN.ino, &w.pctx);
 	CHECK(p2_nlog <= 2, "at most two questions");
@@ -197,12 +207,12 @@ void h_dot_grey(void)
 		if (i < p2_nlog)
 			CHECK(p2_log[i] == PR_2_DOT_NULL_TERM || p2_log[i] == PR_2_SPLIT_DOT,
 			      "format-valid '.': only the NUL-termination and the split-slack conventions can be raised");
-	CHECK(!p2_logged(PR_2_DOT_NULL_TERM) || P2F_NAME(IN.blk, IN.off, 1) != 0, "NUL convention raised only when the byte is not NUL");
-	CHECK(!p2_logged(PR_2_SPLIT_DOT) || P2F_REC(IN.blk, IN.off) > 24u || p2_logged(PR_2_DOT_NULL_TERM),
+	CHECK(!p2_logged(PR_2_DOT_NULL_TERM) || P2F_NAME(IN.blk, P2_DOT_OFF, 1) != 0, "NUL convention raised only when the byte is not NUL");
+	CHECK(!p2_logged(PR_2_SPLIT_DOT) || P2F_REC(IN.blk, P2_DOT_OFF) > 24u || p2_logged(PR_2_DOT_NULL_TERM),
 	      "split raised only when more than 12 spare bytes follow");
 	if (p2_nlog) REACH("grey zone is not empty");
-	CHECK(r != 0 || w.buf[IN.k] == IN.blk[IN.k], "'not modified' means no byte changed");
-	CHECK(P2F_DOT_FORMAT_OK(w.buf, IN.off, IN.ino), "the entry stays a format-valid '.'");
+	CHECK(r != 0 || w.buf[IN.k] == w.b0, "'not modified' means no byte changed");
+	CHECK(P2F_DOT_FORMAT_OK(w.buf, P2_DOT_OFF, IN.ino), "the entry stays a format-valid '.'");
 	REACH("end");
 }
 
@@ -214,7 +224,8 @@ void h_dot_inline(void)
 	int r, filetype = 0;
 
 	LOAD_IN();
-	p2_setup(&w, P2_CHOICE);
+	p2_setup(&w, P2_CHOICE, P2_DOT_OFF);
+	ASSUME(IN.ino != 0);
 	if (IN.incompat & P2F_INCOMPAT_FILETYPE)
 		filetype = EXT2_FT_DIR << 8;
 	memset(&dot, 0, sizeof(dot));
